@@ -617,6 +617,7 @@ func main() {
 	h.merkleRootCases()
 	h.auxCases()
 	h.programCases()
+	h.adversarialCases()
 	h.txCases()
 
 	h.st.Traces = h.st.Evals
